@@ -85,21 +85,107 @@ Definition sa_transfer_omega (eps2 omega : S) (bs : nat) (A : crs) (junk : vec) 
   end.
 Definition sa_transfer (eps2 relax c23 : S) (bs : nat) (A : crs) (junk : vec) : transfer :=
   sa_transfer_omega eps2 (sa_omega relax c23) bs A junk.
-(* Gershgorin estimate spectral_radius<true>(A, 0), current code (/repo f082a42: [dia] is reset to
-   the identity for every row; the LAST stored diagonal entry of the row wins).  Modelled here for one
-   thread; coq/MatOps2.v (matops group) carried the pre-fix per-thread [dia] when this was written. *)
-Definition gersh_row_cur (ir : nat * row) : S :=
-  let sd := fold_left (fun (sd : S * S) e =>
-                         (fst sd + sabs (snd e), if Nat.eqb (fst e) (fst ir) then snd e else snd sd))
-                      (snd ir) (s0, s1) in
-  fst sd * sabs (sinv (snd sd)).
-Definition gersh_rho (A : crs) : S :=
-  let emax := fold_left (fun m ir => smax m (gersh_row_cur ir)) (indexed (rows A)) s0 in
-  let radius := smax s0 emax in
-  if sltb radius s0 then s1 + s1 else radius.
+(* Gershgorin estimate spectral_radius<true>(A, 0): MatOps2.spectral_radius_gersh (current code, /repo
+   f082a42: [dia] reset to the identity for every row), one thread = one chunk *)
 Definition sa_transfer_gersh (eps2 relax c43 : S) (bs : nat) (A : crs) (junk : vec) : transfer :=
-  sa_transfer_omega eps2 (sa_omega_rho relax c43 (gersh_rho A)) bs A junk.
+  sa_transfer_omega eps2 (sa_omega_rho relax c43 (spectral_radius_gersh true [nrows A] A)) bs A junk.
 Definition sa_coarse (nt : nat) (A P R : crs) : crs := galerkin nt A P R.
+
+
+(* ---------------------------------------------------------------- smoothed_aggr_emin
+   (amgcl/coarsening/smoothed_aggr_emin.hpp:86-330), nullspace.cols = 0, one thread.
+   The `#pragma omp critical` accumulations omega[ca] += v, denum[c] += v*v are sums over the rows
+   in row order here (any order gives the same value in a commutative ring). *)
+(* filtered matrix: every stored diagonal entry becomes (i, D_i), strong off-diagonals are kept,
+   weak ones are lumped into D_i *)
+Definition emin_filter (A : crs) (st : flags) : crs * vec :=
+  let l := map (fun ir =>
+      let i := fst ir in
+      let zr := zip_row (snd ir) (nth i st []) in
+      let D := sa_dia i zr in
+      (flat_map (fun e => if Nat.eqb (fst (fst e)) i then [(i, D)]
+                          else if (snd e : bool) then [fst e] else []) zr, D))
+    (indexed (rows A)) in
+  (mkCrs (ncols A) (map fst l), map snd l).
+
+(* current row of A D^-1 A P (marker logic = row_add), then detail::sort_row *)
+Definition emin_adap_row (Af : crs) (dia : vec) (AP : crs) (ia : nat) : row :=
+  sort_row (fold_left (fun acc a =>
+      let va := sinv (vget dia (fst a)) * snd a in
+      fold_left (fun acc p => row_add acc (fst p) (va * snd p)) (nth (fst a) (rows AP) []) acc)
+    (nth ia (rows Af) []) []).
+
+(* two-pointer walk over two column-sorted rows: products of the entries with equal column *)
+Fixpoint join_prod (ra rb : row) {struct ra} : row :=
+  match ra with
+  | [] => []
+  | (ca, va) :: ta =>
+    (fix aux (rb : row) : row :=
+       match rb with
+       | [] => []
+       | (cb, vb) :: tb =>
+         if Nat.ltb ca cb then join_prod ta rb
+         else if Nat.ltb cb ca then aux tb
+         else (ca, va * vb) :: join_prod ta tb
+       end) rb
+  end.
+
+Definition vadd_at (v : vec) (i : nat) (x : S) : vec := upd_nth v i (vget v i + x).
+
+Definition emin_omega (Af : crs) (dia : vec) (AP : crs) (n nc : nat) : vec :=
+  let od := fold_left (fun (od : vec * vec) ia =>
+      let adap := emin_adap_row Af dia AP ia in
+      (fold_left (fun om e => vadd_at om (fst e) (snd e)) (join_prod (nth ia (rows AP) []) adap) (fst od),
+       fold_left (fun d e => vadd_at d (fst e) (snd e * snd e)) adap (snd od)))
+    (seq 0 n) (vzero nc, vzero nc) in
+  map2 (fun d o => sinv d * o) (snd od) (fst od).
+
+(* for(; jp < ep; ++jp) { if (cp > ca) break; if (cp == ca) { va += val; break; } } *)
+Fixpoint tent_scan (ca : nat) (r : row) : option S * row :=
+  match r with
+  | [] => (None, [])
+  | (cp, vp) :: tl =>
+    if Nat.ltb ca cp then (None, r)
+    else if Nat.eqb cp ca then (Some vp, r)
+    else tent_scan ca tl
+  end.
+
+(* overwrite the values of a product row: va = coef(ca, v) (+ the tentative entry in column ca) *)
+Definition emin_upd_row (coef : nat -> S -> S) (prow trow : row) : row :=
+  fst (fold_left (fun (acc : row * row) e =>
+         let sc := tent_scan (fst e) (snd acc) in
+         let va := coef (fst e) (snd e) in
+         (fst acc ++ [(fst e, match fst sc with Some vp => va + vp | None => va end)], snd sc))
+       prow ([], trow)).
+
+Definition emin_interpolation (nt : nat) (Af : crs) (dia : vec) (Pt : crs) : crs * vec :=
+  let AP := product nt Af Pt true in
+  let omega := emin_omega Af dia AP (nrows Pt) (ncols Pt) in
+  (mkCrs (ncols AP)
+     (map (fun ir => let dinv := sinv (vget dia (fst ir)) in
+                     emin_upd_row (fun ca v => (- dinv) * v * vget omega ca) (snd ir) (nth (fst ir) (rows Pt) []))
+          (indexed (rows AP))),
+   omega).
+
+Definition emin_restriction (nt : nat) (Af : crs) (dia : vec) (Pt : crs) (omega : vec) : crs :=
+  let Rt := sort_rows (transpose Pt) in
+  let RA := product nt Rt Af true in
+  mkCrs (ncols RA)
+    (map (fun ir => let w := vget omega (fst ir) in
+                    emin_upd_row (fun ca v => (- w) * sinv (vget dia ca) * v) (snd ir) (nth (fst ir) (rows Rt) []))
+         (indexed (rows RA))).
+
+Definition emin_transfer (nt : nat) (eps2 : S) (bs : nat) (A : crs) (junk : vec) : transfer :=
+  match pointwise_aggregates eps2 bs 0 A junk with
+  | AggEmpty => TrEmpty
+  | AggPrecond => TrPrecond
+  | AggOk count id st =>
+    let Pt := tentative_prolongation count id in
+    let fd := emin_filter A st in
+    let po := emin_interpolation nt (fst fd) (snd fd) Pt in
+    TrOk (fst po) (emin_restriction nt (fst fd) (snd fd) Pt (snd po))
+  end.
+Definition emin_coarse (nt : nat) (A P R : crs) : crs := galerkin nt A P R.
 
 (* ---------------------------------------------------------------- Ruge-Stuben *)
 Inductive cfm := CU | CC | CF.
@@ -237,37 +323,49 @@ Definition rs_cidx (cf : list cfm) : list nat * nat :=
 Definition sle (x y : S) : bool := negb (sltb y x).     (* operator<= of a total order *)
 
 (* interpolation row of an F/U variable.  r = entries with flag; strongC e = S.val[j] && cf[c]=='C' *)
-Definition rs_interp_row (eps eps_trunc : S) (do_trunc : bool) (cf : list cfm) (cidx : list nat)
-                         (i : nat) (r : list (nat * S * bool)) : row :=
-  let strongC := fun (e : nat * S * bool) => snd e && cfm_eqb (cfget cf (fst (fst e))) CC in
-  (* Amin[i], Amax[i] (only with do_trunc; otherwise unused) *)
-  let mm := fold_left (fun (m : S * S) e => if strongC e then (smin (fst m) (snd (fst e)), smax (snd m) (snd (fst e))) else m)
-                      r (s0, s0) in
-  let Amin := fst mm * eps_trunc in
-  let Amax := snd mm * eps_trunc in
-  (* dia, a_num, a_den, b_num, b_den, d_neg, d_pos *)
-  let acc := fold_left (fun (a : S * (S * S) * (S * S) * (S * S)) e =>
-      let '(dia, (a_num, a_den), (b_num, b_den), (d_neg, d_pos)) := a in
-      let c := fst (fst e) in let v := snd (fst e) in
-      if Nat.eqb c i then (v, (a_num, a_den), (b_num, b_den), (d_neg, d_pos)) else
-      if sltb v s0 then
-        (dia, (a_num + v, if strongC e then a_den + v else a_den), (b_num, b_den),
-         (if strongC e && do_trunc && sle Amin v then d_neg + v else d_neg, d_pos))
-      else
-        (dia, (a_num, a_den), (b_num + v, if strongC e then b_den + v else b_den),
-         (d_neg, if strongC e && do_trunc && sle v Amax then d_pos + v else d_pos)))
-    r (s0, (s0, s0), (s0, s0), (s0, s0)) in
+Definition rs_strongC (cf : list cfm) (e : nat * S * bool) : bool :=
+  snd e && cfm_eqb (cfget cf (fst (fst e))) CC.
+(* (amin, amax) over the strong C entries, both starting from zero *)
+Definition rs_minmax (cf : list cfm) (r : list (nat * S * bool)) : S * S :=
+  fold_left (fun (m : S * S) e => if rs_strongC cf e then (smin (fst m) (snd (fst e)), smax (snd m) (snd (fst e))) else m)
+            r (s0, s0).
+(* dia, (a_num, a_den), (b_num, b_den), (d_neg, d_pos) *)
+Definition rs_sums_step (do_trunc : bool) (cf : list cfm) (i : nat) (Amin Amax : S)
+                        (a : S * (S * S) * (S * S) * (S * S)) (e : nat * S * bool) : S * (S * S) * (S * S) * (S * S) :=
+  let '(dia, (a_num, a_den), (b_num, b_den), (d_neg, d_pos)) := a in
+  let c := fst (fst e) in let v := snd (fst e) in
+  if Nat.eqb c i then (v, (a_num, a_den), (b_num, b_den), (d_neg, d_pos)) else
+  if sltb v s0 then
+    (dia, (a_num + v, if rs_strongC cf e then a_den + v else a_den), (b_num, b_den),
+     (if rs_strongC cf e && do_trunc && sle Amin v then d_neg + v else d_neg, d_pos))
+  else
+    (dia, (a_num, a_den), (b_num + v, if rs_strongC cf e then b_den + v else b_den),
+     (d_neg, if rs_strongC cf e && do_trunc && sle v Amax then d_pos + v else d_pos)).
+Definition rs_sums (do_trunc : bool) (cf : list cfm) (i : nat) (Amin Amax : S) (r : list (nat * S * bool)) :=
+  fold_left (rs_sums_step do_trunc cf i Amin Amax) r (s0, (s0, s0), (s0, s0), (s0, s0)).
+(* (alpha, beta) *)
+Definition rs_coefs (eps : S) (do_trunc : bool) (acc : S * (S * S) * (S * S) * (S * S)) : S * S :=
   let '(dia, (a_num, a_den), (b_num, b_den), (d_neg, d_pos)) := acc in
   let cf_neg := if do_trunc && sltb eps (sabs (a_den - d_neg)) then sabs a_den / sabs (a_den - d_neg) else s1 in
   let cf_pos := if do_trunc && sltb eps (sabs (b_den - d_pos)) then sabs b_den / sabs (b_den - d_pos) else s1 in
   let dia' := if sltb s0 b_num && sltb (sabs b_den) eps then dia + b_num else dia in
   let alpha := if sltb eps (sabs a_den) then (- cf_neg) * sabs a_num / (sabs dia' * sabs a_den) else s0 in
   let beta  := if sltb eps (sabs b_den) then (- cf_pos) * sabs b_num / (sabs dia' * sabs b_den) else s0 in
+  (alpha, beta).
+Definition rs_emit (do_trunc : bool) (cf : list cfm) (cidx : list nat) (Amin Amax alpha beta : S)
+                   (r : list (nat * S * bool)) : row :=
   flat_map (fun e =>
       let c := fst (fst e) in let v := snd (fst e) in
-      if negb (strongC e) then [] else
+      if negb (rs_strongC cf e) then [] else
       if do_trunc && sle Amin v && sle v Amax then [] else
       [(ng cidx c, (if sltb v s0 then alpha else beta) * v)]) r.
+Definition rs_interp_row (eps eps_trunc : S) (do_trunc : bool) (cf : list cfm) (cidx : list nat)
+                         (i : nat) (r : list (nat * S * bool)) : row :=
+  let mm := rs_minmax cf r in
+  let Amin := fst mm * eps_trunc in
+  let Amax := snd mm * eps_trunc in
+  let ab := rs_coefs eps do_trunc (rs_sums do_trunc cf i Amin Amax r) in
+  rs_emit do_trunc cf cidx Amin Amax (fst ab) (snd ab) r.
 
 Definition rs_interp (eps eps_trunc : S) (do_trunc : bool) (A : crs) (Sv : flags) (cf : list cfm) : transfer :=
   let ci := rs_cidx cf in
@@ -355,6 +453,35 @@ Definition sa_formula_ok (omega : S) (A : crs) (st : flags) (Pt P : crs) : bool 
   forallb (fun i => negb (sa_row_regular A st i) ||
                     forallb (fun j => seqb (mget P i j) (sa_formula omega A st Pt i j)) (seq 0 (ncols Pt)))
           (seq 0 (nrows A)).
+
+
+(* -- energy-minimising smoothed aggregation, dense formulas (DESIGN 5-C04 B):
+   AP = A_F P_tent, ADAP = A_F D^-1 AP, omega_j = <AP_j, ADAP_j> / <ADAP_j, ADAP_j> (columns),
+   P = P_tent - D^-1 AP Omega,  R = P_tent^T - Omega P_tent^T A_F D^-1 *)
+Definition emin_AP (A : crs) (st : flags) (Pt : crs) (i j : nat) : S :=
+  sumn (fun k => sa_AF A st i k * mget Pt k j) (nrows A).
+Definition emin_ADAP (A : crs) (st : flags) (Pt : crs) (i j : nat) : S :=
+  sumn (fun k => sa_AF A st i k * (sinv (sa_D A st k) * emin_AP A st Pt k j)) (nrows A).
+Definition emin_omega_spec (A : crs) (st : flags) (Pt : crs) (j : nat) : S :=
+  sinv (sumn (fun i => emin_ADAP A st Pt i j * emin_ADAP A st Pt i j) (nrows A))
+  * sumn (fun i => emin_AP A st Pt i j * emin_ADAP A st Pt i j) (nrows A).
+Definition emin_P_spec (A : crs) (st : flags) (Pt : crs) (i j : nat) : S :=
+  (- sinv (sa_D A st i)) * emin_AP A st Pt i j * emin_omega_spec A st Pt j + mget Pt i j.
+Definition emin_RA (A : crs) (st : flags) (Pt : crs) (j i : nat) : S :=
+  sumn (fun k => mget Pt k j * sa_AF A st k i) (nrows A).
+Definition emin_R_spec (A : crs) (st : flags) (Pt : crs) (j i : nat) : S :=
+  (- emin_omega_spec A st Pt j) * sinv (sa_D A st i) * emin_RA A st Pt j i + mget Pt i j.
+(* all rows regular (one stored diagonal entry, flags cover the row) *)
+Definition emin_regular (A : crs) (st : flags) : bool :=
+  forallb (fun i => let zr := zip_row (nth i (rows A) []) (nth i st []) in
+             Nat.eqb (length (filter (fun e => Nat.eqb (fst (fst e)) i) zr)) 1 &&
+             Nat.eqb (length zr) (length (nth i (rows A) [])))
+          (seq 0 (nrows A)).
+Definition emin_formula_ok (A : crs) (st : flags) (Pt P R : crs) : bool :=
+  negb (emin_regular A st) ||
+  (forallb (fun i => forallb (fun j => seqb (mget P i j) (emin_P_spec A st Pt i j)
+                                        && seqb (mget R j i) (emin_R_spec A st Pt j i))
+                             (seq 0 (ncols Pt))) (seq 0 (nrows A))).
 
 (* -- row sums *)
 Definition row_sum (r : row) : S := fold_left (fun a e => a + snd e) r s0.
